@@ -7,6 +7,8 @@ CONSTANTS
   IdxKeyMode = "abs"
   ImgKeepMode = "none"
   LookupsCap = 0
+  FailKeep = FALSE
+  RegionMemo = FALSE
   MaxDepth = 3
   MaxDepthDmg = 2
   MaxDepthCollide = 2
@@ -17,6 +19,8 @@ CONSTANTS
   FillKeys = 150
   FillLangs = 100
   FillLookups = 150
+  MaxDepthVar = 2
+  VarTuples = {"t0", "tA", "tB", "tC"}
   MaxDepthScopes = 2
 SPECIFICATION Spec
 VIEW View
